@@ -122,26 +122,30 @@ def context_case(ctx, case):
     ctx.count("env_steps", len(ep.actions))
     if ep.error is not None or hasattr(ep, "dead_end_at"):
         ctx.count("c04_skipped_incomplete_pool")  # dead ends as such are C02's business ...
-        if ep.error is None:
-            # ... but a row that is offered nothing in the batch while the same prefix executed alone is offered something
-            # is a mask that depends on the batch-mates
-            t = ep.dead_end_at
-            for b in torch.nonzero(~ep.final_mask.any(-1)).flatten().tolist():
-                if t > 0 and bool(ep.done_after[t - 1][b]):
-                    continue
-                prefix = [int(ep.actions[k][b]) for k in range(t)]
-                try:
-                    se = run_episode(env, td[b : b + 1].clone(), ["first_true"], gen, max_steps=t, scripted=[prefix], get_reward=False)
-                except Exception:
-                    continue
-                ctx.count("c04_dead_end_prefix_solo_runs")
-                if se.error is not None or hasattr(se, "dead_end_at") or hasattr(se, "script_infeasible") or len(se.actions) != t:
-                    continue
+        # ... but masks that differ between the batch and the same prefix executed alone are C04's: every unfinished row
+        # of the broken pool is replayed alone up to the step where the pool stopped and its masks are compared step by step
+        T = len(ep.actions)
+        pool_masks = list(ep.masks) + [ep.final_mask]
+        for b in range(m):
+            if T > 0 and bool(ep.done_after[T - 1][b]):
+                continue
+            prefix = [int(ep.actions[k][b]) for k in range(T)]
+            try:
+                se = run_episode(env, td[b : b + 1].clone(), ["first_true"], gen, max_steps=T, scripted=[prefix], get_reward=False)
+            except Exception:
+                continue
+            ctx.count("c04_broken_pool_solo_replays")
+            solo_masks = list(se.masks) + [se.final_mask]
+            for t in range(min(len(solo_masks), len(pool_masks))):
+                if t > 0 and t - 1 < len(se.done_after) and bool(se.done_after[t - 1][0]):
+                    break
                 ctx.evaluation()
-                if bool(se.final_mask[0].any()):
+                pm, sm = pool_masks[t][b].reshape(-1), solo_masks[t][0].reshape(-1)
+                if pm.shape != sm.shape or not torch.equal(pm, sm):
                     ctx.violation(sig_of(cfg, q="mask", context="batched", padded=False, family=family),
-                                  f"after the prefix {prefix} the row is offered no action inside a batch of {m}, but executed alone it is offered {torch.nonzero(se.final_mask[0]).flatten().tolist()}",
-                                  dict(inst=plain_row(td, b), script=prefix))
+                                  f"after the prefix {prefix[:t]} the row is offered {torch.nonzero(pm).flatten().tolist()} inside a batch of {m} but {torch.nonzero(sm).flatten().tolist()} when executed alone",
+                                  dict(inst=plain_row(td, b), script=prefix[:t]))
+                    return
         return
     scripts = [ep.executed(b) if ep.finish_step(b) is not None else None for b in range(m)]
     rng = __import__("random").Random(seed)
